@@ -1,6 +1,6 @@
 (* One entry point for the correspondence check: numeric opcode + wire value. *)
 From WS Require Import Base.Py.
-From WS Require Folding.Model TP.Model Evaluate.Model Puddle.Model Separator.Model Dibs.Model Baseline.Model.
+From WS Require Folding.Model TP.Model Evaluate.Model Puddle.Model Separator.Model Dibs.Model Baseline.Model Prepare.Model.
 
 Definition dispatch (op : Z) (j : J) : J :=
   match op with
@@ -18,5 +18,9 @@ Definition dispatch (op : Z) (j : J) : J :=
   | 1001 => Dibs.Model.run_dibs j
   | 101 => Baseline.Model.run_baseline j
   | 102 => Baseline.Model.run_baseline_oracle j
+  | 401 => Prepare.Model.run_check_utterance j
+  | 402 => Prepare.Model.run_prepare j
+  | 403 => Prepare.Model.run_gold j
+  | 404 => Prepare.Model.run_prep_main j
   | _ => j_bad
   end%Z.
